@@ -6,17 +6,24 @@ SPEC = {
         "k*10+2": "send k: value that reached the resolver differs from the model's parse result",
         "k*10+3": "send k: number of resolver calls differs from the two-phase machine (1 after Ok, 0 after a rejection)",
         "101-103": "the same three for a request that selects the field several times (aliases / fragments): outcome, per-selection values in document order, number of resolver calls",
+        "k*10+4": "send k: the value PrepareQuery stored in Selection.Args (read before Execute; behind ConnectionArgs.Args on the paginated twin) differs from the model's parse result, or is present / absent where the model refuses / accepts",
+        "200": "schema.Build accepts an argument struct the model's builder (build_top over the raw reflect view) refuses, or the converse",
+        "201": "the model's builder returns another argument type than the one the harness derived from the reflect.Type (names, optional / pointer wrappers, skipped fields, enum / scalar / TextUnmarshaler precedence)",
+        "300-301": "request to the field without argument struct (nilParseArguments): outcome class; resolver ran although refused / did not run",
     },
-    "corr_name": "Args.Model (parse_doc: defaults, then fragment bodies, then the operation; vtj; parse; prepare) vs graphql.Parse / PrepareQuery / Execute with reflect-built argument structs, field in the operation body, a named fragment or an inline fragment",
+    "corr_name": "Args.ModelBuilder (build_top: makeStructParser / getStructObjectFields / makeArgParser / parseGraphQLFieldInfo on the raw reflect view; parse_noargs) + Args.Model (parse_doc: defaults, then fragment bodies, then the operation; vtj; parse; prepare) vs schema.Build / graphql.Parse / PrepareQuery (Selection.Args) / Execute with reflect-built and catalogue argument structs, field in the operation body, a named fragment or an inline fragment; histories of operations sharing one variables map",
     "coq_modules": ["Args.Model", "Args.Spec", "Args.Codec", "Args.Proofs", "Args.ProofsReject", "Args.ProofsInst", "Args.ProofsSubst", "Args.ProofsTotal", "Args.ProofsDoc", "Args.ProofsPaginated", "Gen.ArgParsers", "Args.Table", "Args.ModelBuilder", "Args.ProofsBuilder", "Args.ProofsRange", "Args.Check"],
     "harness_timeout": {"quick": 600, "thorough": 3000},
     "search": {"n": 6000, "timeout": 900},
     "trusted_base": [
         "Coq 8.16.1 kernel and vm_compute (no native_compute); Print Assumptions: closed under the global context",
-        "hand-written model coq/theories/Args/Model.v of graphql/parser.go (valueToJson, argsToJson, variable defaults), "
+        "hand-written models coq/theories/Args/ModelBuilder.v (schemabuilder/input.go makeStructParser, getStructObjectFields, makeArgParser(Inner), "
+        "nilParseArguments; reflect.go parseGraphQLFieldInfo) and coq/theories/Args/Model.v of graphql/parser.go (valueToJson, argsToJson, variable defaults), "
         "graphql/schemabuilder/input.go (every argParser) and the Parse -> PrepareQuery -> Execute order of graphql/http.go, "
         "tied to the code by the correspondence check only",
         "tools/gentables (go/ast extractor of the scalarArgParsers table into coq/theories/Gen/ArgParsers.v, re-run on every check)",
+        "the harness's raw reflect dump of argument structs (rawCoq: kinds, names, tags, PkgPath / Anonymous, and per type: registered enum, "
+        "scalarArgParsers entry by internal.TypesIdenticalOrScalarAliases' rule, TextUnmarshaler) - the input of the builder model",
         "Go harness harness/cmd/c18 (type and value generators, reflect.StructOf / MakeFunc schema, type-directed dump, oracle, "
         "Coq term printer); its catalogue of named types (named scalars, three enums, a TextUnmarshaler, five nested structs)",
         "third-party code modelled, not verified: graphql-go lexer/parser (query text -> AST, strconv for number tokens), "
@@ -28,8 +35,10 @@ SPEC = {
     "assumptions": [
         "integers are within the range of their kind and |z| <= 2^53; float32 arguments have a 24-bit significand and float64 "
         "arguments are normalised dyadics (exponent range, NaN, infinities and -0 are outside the model and the generator)",
-        "argument types are well formed: enum names and struct field names unique, no pointer to pointer, "
-        "`optional` only on struct fields (what schemabuilder accepts)",
+        "argument types are what the builder returns (theorem built_types_are_well_formed: unique field names, no pointer to pointer, "
+        "`optional` only on struct fields - proved of the builder model, which is compared with schema.Build on every case); the name maps "
+        "of registered enums have unique names (Go maps)",
+        "the builder model reads Go identifiers that start with an ASCII letter (makeGraphql lower-cases the first rune; generator names are ASCII)",
         "JSON objects have unique keys (Go maps)",
         "documents pass detectCyclesAndUnusedFragments / detectConflicts (not modelled); a self-referencing input struct is unfolded "
         "into the finite type language to depth 3 and the generator keeps values above that depth",
@@ -39,7 +48,9 @@ SPEC = {
                 "parser of schemabuilder/input.go, by induction over the argument type language; the model is run against "
                 "graphql.Parse/PrepareQuery/Execute on reflect-built argument structs sent by literal, variable, nested "
                 "variable and default on every run (correspondence), and the property itself (echo = sent, literal = variable, "
-                "default iff no non-null value, malformed input rejected as a client error with zero resolver calls) is "
+                "default iff no non-null value - also for later operations that share one variables map, which Parse must not modify -, "
+                "arguments parsed once in PrepareQuery: Selection.Args = what the resolver receives, unsupported argument types refused by schema.Build, "
+                "malformed input rejected as a client error with zero resolver calls) is "
                 "evaluated on the implementation's own outputs (oracle), through the direct Parse/PrepareQuery/Execute sequence, "
                 "graphql.HTTPHandler and the websocket subscribe / mutate handlers. When model and implementation disagree without an "
                 "oracle failure, 6000 variants of the disagreeing cases (boundary values of every width, other transports and places, "
